@@ -413,10 +413,11 @@ type Net struct {
 }
 
 type CallLog struct {
-	Svc   string `json:"svc"`
-	Call  int    `json:"call"`
-	Batch int    `json:"batch"`
-	MP    bool   `json:"mp"`
+	Svc    string   `json:"svc"`
+	Call   int      `json:"call"`
+	Batch  int      `json:"batch"`
+	MP     bool     `json:"mp"`
+	Leaves []string `json:"leaves"` // scalar leaves of the body actually returned (honest or faulty)
 }
 
 func NewNet(w *world.World) (*Net, error) {
@@ -533,11 +534,31 @@ func (n *Net) RoundTrip(req *http.Request) (*http.Response, error) {
 	if gate != nil {
 		gate(url, call)
 	}
+	setLeaves := func(body []byte) {
+		var v interface{}
+		acc := map[string]bool{}
+		if json.Unmarshal(body, &v) == nil {
+			ScalarLeaves(v, acc)
+		}
+		ls := []string{}
+		for k := range acc {
+			ls = append(ls, k)
+		}
+		sort.Strings(ls)
+		n.mu.Lock()
+		for i := range n.Calls {
+			if n.Calls[i].Svc == url && n.Calls[i].Call == call {
+				n.Calls[i].Leaves = ls
+			}
+		}
+		n.mu.Unlock()
+	}
 	if fault != nil {
 		if st, b, terr, handled := fault(url, call, reqs, honest); handled {
 			if terr != nil {
 				return nil, terr
 			}
+			setLeaves(b)
 			return jsonResp(st, b), nil
 		}
 	}
@@ -547,6 +568,7 @@ func (n *Net) RoundTrip(req *http.Request) (*http.Response, error) {
 	} else {
 		out, _ = json.Marshal(honest)
 	}
+	setLeaves(out)
 	return jsonResp(200, out), nil
 }
 
